@@ -531,3 +531,36 @@ V('sb4-leaks-file', ['C09'], 'yalafi/handlers.py', "    parser.extracted = extra
 V('sb5-own-parser', ['C09'], 'yalafi/handlers.py', "        toks = parser.parser_work(latex)\n    except RecursionError:",
   "        toks = type(parser)(parser.parms, parser.packages).parser_work(latex)\n    except RecursionError:", 'SB5')
 V('sb5-table-reset', ['C09'], P, "        main += self.parser_work(latex)\n", "        self.the_macros = dict((k, v) for k, v in self.the_macros.items() if not v.scanned)\n        main += self.parser_work(latex)\n", 'SB5')
+
+# ---- rules added after seed round 4 (sa/rules/r4.py)
+V('ix16-xspace', ['C07'], 'yalafi/packages/xspace.py', "    tok = buf.cur()\n    if tok and tok.txt not in xspace_excl:\n        return [defs.SpaceToken(pos, ' ')]\n    return []",
+  "    if buf.cur().txt in xspace_excl:\n        return []\n    return [defs.SpaceToken(pos, ' ')]", 'IX16')
+V('ix16-neutral-alias', ['C07'], 'yalafi/packages/xspace.py', "    tok = buf.cur()\n    if tok and tok.txt not in xspace_excl:\n        return [defs.SpaceToken(pos, ' ')]\n    return []",
+  "    nxt = buf.cur()\n    if not nxt:\n        return []\n    following = nxt\n    if following.txt in xspace_excl:\n        return []\n    return [defs.SpaceToken(pos, ' ')]", [])
+V('ix8-isdigit', ['C07'], S, "        if self.pos >= self.max_pos or not latex[self.pos].isdecimal():", "        if self.pos >= self.max_pos or not latex[self.pos].isdigit():", 'IX8')
+V('ml2-empty-stack', ['C07', 'C12'], PA, "            if len(self.parser_lang_stack) > 1:\n                self.parser_lang_stack.pop()", "            if self.parser_lang_stack:\n                self.parser_lang_stack.pop()", 'ML2')
+V('ml2-neutral-ge2', ['C07', 'C12'], PA, "            if len(self.parser_lang_stack) > 1:\n                self.parser_lang_stack.pop()", "            if len(self.parser_lang_stack) >= 2:\n                self.parser_lang_stack.pop()", [])
+V('exw-rebind', ['C03', 'C18'], 'yalafi/handlers.py', "    extracted = parser.extracted\n    parser.extracted = []\n", "    extracted = parser.extracted\n    parser.extracted.clear()\n", 'EXW')
+V('exw-late-expand', ['C19', 'C03'], P, "            self.extracted.append(self.expand_sequence(scanner.Buffer(toks)))", "            self.extracted.append(toks)", 'EXW')
+V('exw-extra-cond', ['C18'], P, "        if mac.extract:\n            toks = ([defs.LanguageToken(start,", "        if mac.extract and not delimiters[-1:] == [None]:\n            toks = ([defs.LanguageToken(start,", 'EXW')
+V('um1-swallow-option', ['C03', 'C19'], P, "            if not (math or tok.txt in self.unknowns):\n                self.unknowns.append(tok.txt)\n            return [defs.ActionToken(tok.pos)]",
+  "            if not (math or tok.txt in self.unknowns):\n                self.unknowns.append(tok.txt)\n            if buf.cur() and buf.cur().txt == '[':\n                self.arg_buffer(buf, tok.pos, end=']')\n            return [defs.ActionToken(tok.pos)]", 'UM1')
+V('um1-sticky-unknown', ['C09', 'C19'], P, "        buf.skip_space()    # for macros without arguments, even if known\n        if tok.txt not in self.the_macros:",
+  "        buf.skip_space()    # for macros without arguments, even if known\n        if tok.txt in self.unknowns:\n            return [defs.ActionToken(tok.pos)]\n        if tok.txt not in self.the_macros:", 'UM1')
+V('sc8-many-digits', ['C09'], S, "        arg = int(latex[self.pos])\n        self.pos += 1\n",
+  "        first = self.pos\n        while self.pos < self.max_pos and latex[self.pos].isdecimal():\n            self.pos += 1\n        arg = int(latex[first:self.pos])\n", 'SC8')
+V('sb2b-no-default-at-end', ['C09'], P, "                if tok and tok.txt == '[':\n                    delim = True\n                    arg_extr = arg = self.arg_buffer(buf, pos, end=']').all()\n                else:\n                    if n < len(mac.defaults):",
+  "                if not tok:\n                    pass\n                elif tok.txt == '[':\n                    delim = True\n                    arg_extr = arg = self.arg_buffer(buf, pos, end=']').all()\n                else:\n                    if n < len(mac.defaults):", 'SB2b')
+V('sb2b-neutral-elif', ['C09'], P, "                if tok and tok.txt == '[':\n                    delim = True\n                    arg_extr = arg = self.arg_buffer(buf, pos, end=']').all()\n                else:\n                    if n < len(mac.defaults):",
+  "                if tok is not None and tok.txt == '[':\n                    delim = True\n                    arg_extr = arg = self.arg_buffer(buf, pos, end=']').all()\n                else:\n                    if n < len(mac.defaults):", [])
+V('en1-default-encoding', ['C09'], T2, "def read_definitions(fn, encoding):", "def read_definitions(fn, encoding='utf-8'):", 'EN1')
+V('sh1-global-language', ['C10', 'C12'], PR, "                            defs=cmdline.define, lang=language,", "                            defs=cmdline.define, lang=cmdline.language,", 'SH1')
+V('sh1-no-defs', ['C19'], PR, "                            defs=cmdline.define, lang=language,", "                            lang=language,", 'SH1')
+V('nm1-prefix', ['C11', 'C03'], MP, "                if tok.txt in parms.math_text_macros:", "                if tok.txt.startswith(tuple(parms.math_text_macros)):", 'NM1')
+V('acc1-overwrite', ['C12', 'C19'], 'yalafi/handlers.py', "                out += parser.init_package(p, f, options, pos)", "                out = parser.init_package(p, f, options, pos)", 'ACC1')
+V('ck8-sorted', ['C20'], CH, "    accept = cmdline.single_letters.split('|')", "    accept = sorted(set(cmdline.single_letters.split('|')))", 'CK8')
+V('ck7-double-escape', ['C20'], SH, "    cmdline.single_letters += r'|'.join(set(repls))", "    cmdline.single_letters += r'|'.join(set(re.escape(s) for s in repls))", 'CK7')
+V('em5-silent-exit', ['C08'], P, "        while tok:\n            if tok.txt == '{':\n                lev += 1",
+  "        while tok:\n            if end == ']' and type(tok) is defs.ParagraphToken:\n                buf.back([opening_tok] + out)\n                return scanner.Buffer([defs.VoidToken(pos)])\n            if tok.txt == '{':\n                lev += 1", 'EM5')
+V('ck10-backend-only', ['C20'], PR, "            matches += checks.create_single_letter_matches(plain, cmdline)\n", "            if not cmdline.textgears:\n                matches += checks.create_single_letter_matches(plain, cmdline)\n", 'CK10')
+V('mt3-misspelt', ['C11'], 'yalafi/packages/amsmath.py', "        EquEnv(parms, 'multline'),\n", "        EquEnv(parms, 'multiline'),\n", 'MT3')
